@@ -41,6 +41,15 @@ def tables(ctx):
     for n, pieces in ((3, [b"abc", b"", b"defg"]), (4, [b"", b"xy", b"", b"z" * 40]), (5, [b"q", b"", b"", b"rr", b""])):
         f, h, body = zckref.build_file(pieces, comp=2, htype=1, ctype=3)
         out.append(("zempty%d" % n, f))
+    # entries without stored bytes in the middle of the index (the reader accepts them; the library's own writer never makes one):
+    # the missing chunks on either side are neighbours in the file although not in the index, and must come out as one range
+    for name, sizes in (("zmid3", (100, 0, 100)), ("zmid4", (50, 0, 0, 60)), ("zmid5", (10, 0, 20, 0, 30)), ("zmid6", (7, 9, 0, 11, 13, 0))):
+        pieces = [bytes([65 + i]) * n for i, n in enumerate(sizes)]
+        f, h, body = zckref.build_file(pieces, comp=0, htype=1, ctype=3)
+        for c in h.chunks[1:]:
+            if c.clen == 0:
+                c.digest = bytes(len(c.digest)); c.udigest = bytes(len(c.digest))
+        out.append((name, h.build() + body))
     return out
 
 
@@ -154,6 +163,10 @@ def work(arg):
         if not noscan:
             # only reachable markings are judged; the flow must reproduce the marking we asked for
             want = "".join("+" if (m == "+" or ext[i][1] == 0) else m for i, m in enumerate(mark))
+            if len(cc) > 5 and cc[5]:
+                # through a detached header only the dictionary entry is scanned; every other entry stays unknown (an entry
+                # without stored bytes included)
+                want = want[0] + "0" * (len(mark) - 1)
             if flags != want and "!" in mark:
                 pass  # identical chunks share a digest: rejecting one rejects its twins; the marking that was reached is judged
             elif flags != want:
